@@ -46,7 +46,7 @@ ASSUMPTIONS = [
     "bookkeeping = the message logger is reached for every message that passed parsing",
     "dropping a synthetic copy that was never sent is a no-op in the code and is not counted as 'dropped'",
 ]
-MUST_REACH = {"scenarios": 500, "hook_exceptions_raised": 100, "claims_observed": 100, "followups_delivered": 500,
+MUST_REACH = {"proxy_read_message_scenarios": 60, "scenarios": 500, "hook_exceptions_raised": 100, "claims_observed": 100, "followups_delivered": 500,
               "ownership_sequences": 300, "illegal_reuse_rejected": 100, "subscriber_scenarios": 20, "predicate_scenarios": 8, "wait_for_scenarios": 4, "abandoned_wait_scenarios": 6, "rlv_scenarios": 6,
               "packet_hook_scenarios": 6, "object_hook_scenarios": 2, "script_addon_scenarios": 20, "script_addon_faults_survived": 18,
               "script_addon_hook_runs": 20, "script_reloads_observed": 6,
@@ -388,6 +388,118 @@ def check_lludp_scenario(ctx, behaviours, direction_in, reliable):
                           "for a parsed message", dict(wit, logged=h.logger.logged[:6]))
         followup(ctx, h, wit)
         ctx.nontrivial(("lludp", tuple(behaviours), direction_in, reliable))
+    finally:
+        h.close()
+
+
+PROXY_READ_KINDS = ["UseCircuitCode:resent", "UseCircuitCode:again", "AgentMovementComplete", "RegionHandshake", "StartPingCheck",
+                    "CompletePingCheck", "PacketAck:for-viewer-packet", "AgentDataUpdate", "ChatFromSimulator:owner-say", "ObjectUpdate:empty",
+                    "KillObject", "CompleteAgentMovement", "AgentThrottle"]
+
+
+def _proxy_read_message(h, kind):
+    """(direction_in, Message) for one of the messages the proxy itself looks at or acts on while it passes through."""
+    base = kind.split(":")[0]
+    sess = h.session
+    if base == "UseCircuitCode":
+        # the viewer repeats its opening message on a circuit that is already alive: a retransmission of the first one, or a
+        # new one (reconnect)
+        flags = int(PacketFlags.RELIABLE) | (int(PacketFlags.RESENT) if kind.endswith("resent") else 0)
+        pid = 1 if kind.endswith("resent") else h.out_id
+        return False, Message("UseCircuitCode", Block("CircuitCode", Code=sess.circuit_code, SessionID=sess.id, ID=sess.agent_id),
+                              packet_id=pid, flags=flags)
+    if base == "AgentMovementComplete":
+        return True, Message("AgentMovementComplete", Block("AgentData", AgentID=sess.agent_id, SessionID=sess.id),
+                             Block("Data", Position=(1.0, 2.0, 3.0), LookAt=(1.0, 0.0, 0.0), RegionHandle=h.region.handle or 0, Timestamp=5),
+                             Block("SimData", ChannelVersion="x"), packet_id=h.in_id, flags=int(PacketFlags.RELIABLE))
+    if base == "RegionHandshake":
+        m = Message("RegionHandshake", Block("RegionInfo", fill_missing=True), Block("RegionInfo2", fill_missing=True),
+                    Block("RegionInfo3", fill_missing=True), Block("RegionInfo4", fill_missing=True), packet_id=h.in_id,
+                    flags=int(PacketFlags.RELIABLE))
+        m["RegionInfo"]["SimName"] = "hv region"
+        return True, m
+    if base == "StartPingCheck":
+        return True, Message("StartPingCheck", Block("PingID", PingID=3, OldestUnacked=h.in_id), packet_id=h.in_id, flags=0)
+    if base == "CompletePingCheck":
+        return False, Message("CompletePingCheck", Block("PingID", PingID=3), packet_id=h.out_id, flags=0)
+    if base == "PacketAck":
+        return True, Message("PacketAck", Block("Packets", ID=1), packet_id=h.in_id, flags=0)
+    if base == "AgentDataUpdate":
+        return True, Message("AgentDataUpdate", Block("AgentData", AgentID=sess.agent_id, FirstName="a", LastName="b", GroupTitle="",
+                                                      ActiveGroupID="00000000-0000-0000-0000-0000000000cc", GroupPowers=0, GroupName="g"),
+                             packet_id=h.in_id, flags=int(PacketFlags.RELIABLE))
+    if base == "ChatFromSimulator":
+        return True, Message("ChatFromSimulator", Block("ChatData", FromName="x", SourceID="00000000-0000-0000-0000-0000000000aa",
+                                                        OwnerID=sess.agent_id, SourceType=2, ChatType=8, Audible=1,
+                                                        Position=(1.0, 2.0, 3.0), Message="plain owner say"), packet_id=h.in_id, flags=0)
+    if base == "ObjectUpdate":
+        return True, Message("ObjectUpdate", Block("RegionData", RegionHandle=h.region.handle or 0, TimeDilation=1), packet_id=h.in_id,
+                             flags=0)
+    if base == "KillObject":
+        return True, Message("KillObject", Block("ObjectData", ID=4711), packet_id=h.in_id, flags=int(PacketFlags.RELIABLE))
+    if base == "CompleteAgentMovement":
+        return False, Message("CompleteAgentMovement", Block("AgentData", AgentID=sess.agent_id, SessionID=sess.id, CircuitCode=sess.circuit_code),
+                              packet_id=h.out_id, flags=int(PacketFlags.RELIABLE))
+    if base == "AgentThrottle":
+        return False, Message("AgentThrottle", Block("AgentData", AgentID=sess.agent_id, SessionID=sess.id, CircuitCode=sess.circuit_code),
+                              Block("Throttle", GenCounter=0, Throttles=b"\x00" * 28), packet_id=h.out_id, flags=int(PacketFlags.RELIABLE))
+    raise ValueError(kind)
+
+
+def check_proxy_read_messages(ctx, behaviours, kind):
+    """The same law for the messages the proxy itself reads or acts on (circuit opening repeated on a live circuit, arrival in a
+    region, handshakes, pings, acknowledgements, ...): whatever the proxy does with their content, they are proxied messages -
+    every addon's hook sees them, and they go out exactly once unless claimed."""
+    h = Harness(len(behaviours))
+    try:
+        for a, b in zip(h.addons, behaviours):
+            a.lludp = b
+        try:
+            direction_in, msg = _proxy_read_message(h, kind)
+            data = bytes(_ser.serialize(msg))
+        except Exception as e:
+            ctx.inconclusive_because(f"could not build {kind}: {e!r}"[:200])
+            return
+        if direction_in:
+            h.in_id += 1
+        elif msg.packet_id == h.out_id:
+            h.out_id += 1
+        name = msg.name
+        before = len(h.rig.sendlog)
+        exc = h.feed(direction_in, data)
+        ran_expected, emitted_expected, claimed = model_lludp(list(behaviours))
+        wit = {"proxy_read_kind": kind, "behaviours": list(behaviours), "direction": "in" if direction_in else "out"}
+        ctx.ev()
+        ctx.count("proxy_read_message_scenarios")
+        if exc is not None:
+            ctx.violation("exception-escaped-proxy:" + name, "an exception left datagram_received for a valid datagram on an "
+                          "open circuit", dict(wit, exc=repr(exc)[:300]))
+            return
+        n = 0
+        for (_, out, addr) in h.rig.sendlog[before:]:
+            payload = out
+            if addr == h.client:
+                un = socks_unwrap_ref(out)
+                if un is None:
+                    continue
+                payload = un[1]
+            try:
+                if _eager.deserialize(payload).name == name and (name != "PacketAck" or addr == h.client):
+                    n += 1
+            except Exception:
+                continue
+        if n > emitted_expected:
+            ctx.violation("emitted-more-than-once:" + name, "more datagrams carry the message than the original + taken copies that "
+                          "were legitimately sent", dict(wit, count=n, expected=emitted_expected))
+        elif n < emitted_expected:
+            ctx.violation("unclaimed-message-lost:" + name, "an unclaimed message did not reach the wire",
+                          dict(wit, count=n, expected=emitted_expected))
+        ran = [e for e in h.log if e[1] == "lludp" and e[3] == name]
+        if len(ran) != ran_expected:
+            ctx.violation("later-addon-hook-skipped:" + name, "not every addon's hook ran for the message",
+                          dict(wit, ran=len(ran), expected=ran_expected))
+        followup(ctx, h, wit)
+        ctx.nontrivial(("proxy-read", kind, tuple(behaviours)))
     finally:
         h.close()
 
@@ -1210,10 +1322,16 @@ def run(ctx):
     pairs = [(f1, "script_repaired") for f1 in SCRIPT_FAULTS[1:]] + pairs
     for k, (f1, f2) in enumerate(pairs[:ctx.pick(24, len(pairs))]):
         others.append(("script", f1, bool(k % 2), bool(k % 3 == 0), f2))
+    for kind in PROXY_READ_KINDS:
+        for combo in (("none", "none"), ("false", "raise_value"), ("raise_key", "none"), ("true", "none"), ("none", "take_send_copy"),
+                      ("drop", "none")):
+            others.append(("proxyread", combo, kind))
     for i, o in enumerate(others):
         if not ctx.mine(i):
             continue
-        if o[0] == "packet":
+        if o[0] == "proxyread":
+            check_proxy_read_messages(ctx, o[1], o[2])
+        elif o[0] == "packet":
             check_packet_hook(ctx, o[1], o[2])
         elif o[0] == "sub":
             check_subscriber(ctx, *o[1:])
@@ -1252,7 +1370,9 @@ def replay(ctx, w):
         asyncio.get_event_loop_policy().get_event_loop()
     except Exception:
         asyncio.set_event_loop(asyncio.new_event_loop())
-    if w.get("hook") == "handle_lludp_message":
+    if "proxy_read_kind" in w:
+        check_proxy_read_messages(ctx, tuple(w["behaviours"]), w["proxy_read_kind"])
+    elif w.get("hook") == "handle_lludp_message":
         check_lludp_scenario(ctx, tuple(w["behaviours"]), w["direction"] == "in", w["reliable"])
     elif "fault" in w:
         check_script_addons(ctx, w["fault"], w["direction"] == "in", w["reliable"], w.get("second_fault"))
